@@ -102,19 +102,21 @@ theorem agree_step (cfg : Cfg) (hg : cfg.guard = true) (a : A) (act : Act) (h : 
     refine ⟨?_, ?_, ?_, ?_, ?_, ?_⟩ <;> simp [Act.apply, Core.restartFinish, table]
   case dropRestart =>
     refine ⟨h1, h2, ?_, h4, h5, h6⟩
-    intro hr; exact absurd hr hen
+    intro hr; exact absurd hr hen.1
   case error =>
     have hs : a.core.started = true := by
       rcases hen with h | h
       · cases h
       · exact h
-    refine ⟨?_, ?_, ?_, ?_, ?_, ?_⟩ <;> simp_all [Act.apply, Core.setError, table]
+    refine ⟨?_, ?_, ?_, ?_, ?_, ?_⟩ <;> simp only [Act.apply, Core.setError] <;> split <;> simp_all [table]
   case write =>
     refine ⟨?_, ?_, ?_, ?_, ?_, ?_⟩ <;> simp only [Act.apply, Core.writeImage] <;> split <;> assumption
   case ev e =>
     cases e <;> refine ⟨?_, ?_, ?_, ?_, ?_, ?_⟩ <;> simp only [Act.apply, Core.event] <;>
       first | assumption | (split <;> assumption)
   case setOut i v =>
+    exact ⟨h1, h2, h3, h4, h5, h6⟩
+  case uwrite i v u =>
     exact ⟨h1, h2, h3, h4, h5, h6⟩
   case clock inc =>
     refine ⟨?_, ?_, ?_, ?_, ?_, ?_⟩ <;> simp only [Act.apply, Core.clock] <;> split <;> assumption
@@ -149,9 +151,9 @@ theorem agreeWeak_step (cfg : Cfg) (pm : Perm) (a : A) (act : Act) (h : AgreeWea
     refine ⟨?_, ?_, ?_, ?_, ?_⟩ <;> simp [Act.apply, Core.restartFinish, table]
   case dropRestart =>
     refine ⟨h1, h2, ?_, h4, h5⟩
-    intro hr; exact absurd hr hen
+    intro hr; exact absurd hr hen.1
   case error =>
-    refine ⟨?_, ?_, ?_, ?_, ?_⟩ <;> simp_all [Act.apply, Core.setError, table]
+    refine ⟨?_, ?_, ?_, ?_, ?_⟩ <;> simp only [Act.apply, Core.setError] <;> split <;> simp_all [table]
   case write =>
     refine ⟨?_, ?_, ?_, ?_, ?_⟩ <;> simp only [Act.apply, Core.writeImage] <;> split <;> assumption
   case ev e =>
@@ -159,16 +161,21 @@ theorem agreeWeak_step (cfg : Cfg) (pm : Perm) (a : A) (act : Act) (h : AgreeWea
       first | assumption | (split <;> assumption)
   case setOut i v =>
     exact ⟨h1, h2, h3, h4, h5⟩
+  case uwrite i v u =>
+    exact ⟨h1, h2, h3, h4, h5⟩
   case clock inc =>
     refine ⟨?_, ?_, ?_, ?_, ?_⟩ <;> simp only [Act.apply, Core.clock] <;> split <;> assumption
 
 /-! ## The statements over all operation sequences -/
 
 theorem agree_init (cfg : Cfg) (outs : List Int) : Agree (abs (init cfg outs)) := by
-  refine ⟨?_, ?_, ?_, ?_, ?_, ?_⟩ <;> simp [abs, init, rphaseOf, State.emgr]
+  unfold init
+  split <;> (refine ⟨?_, ?_, ?_, ?_, ?_, ?_⟩ <;> simp [abs, rphaseOf, State.emgr])
 
 theorem allReq_init (cfg : Cfg) (outs : List Int) : AllReq okReq (init cfg outs) := by
-  intro r hr; simp [init, State.reqs, Mgr.reqs] at hr
+  intro r hr
+  unfold init at hr
+  split at hr <;> simp [State.reqs, Mgr.reqs] at hr
 
 /-- Induction over the operation list: the agreement and the well-formedness of the held requests are
     preserved by every quiet operation. -/
@@ -263,6 +270,7 @@ theorem idsAfter_step (cfg : Cfg) (a0 a : A) (act : Act) (h : IdsAfter a0 a) :
     cases e <;> refine ⟨?_, ?_⟩ <;> simp only [Act.apply, Core.event] <;>
       first | assumption | (split <;> assumption)
   case clock inc => refine ⟨?_, ?_⟩ <;> simp only [Act.apply, Core.clock] <;> split <;> assumption
+  case error => refine ⟨?_, ?_⟩ <;> simp only [Act.apply, Core.setError] <;> split <;> assumption
   all_goals exact ⟨h1, h2⟩
 
 /-- **C06, third part: every run gets a fresh run id.** If the run id after `ops₁ ++ ops₂` differs from
